@@ -53,7 +53,7 @@ class C04(Check):
     floor_nontrivial = 30
     required_counters = ("estimator_values_compared", "nz_values_compared", "normalisations_checked", "e2e_measurements")
     shards = (12, 16)
-    budget = (60, 500)
+    budget = (300, 500)
 
     def cases(self, tier, seed):
         q = tier == "quick"
